@@ -7,29 +7,31 @@ import (
 	"os"
 	"strings"
 	"testing"
+	"time"
 )
 
 type genFn func(rng *rand.Rand, seed int64) *Scenario
 
 var generators = map[string]genFn{
-	"basic": genBasic,
-	"stoppoints": genStopPoints,
-	"conn": genConn,
-	"faults": genFaults,
-	"health": genHealth,
-	"tamper": genTamper,
-	"takeover": genTakeover,
-	"vacancy": genVacancy,
-	"takeoverstop": genTakeoverStop,
-	"stoptimeout": genStopTimeout,
-	"spin": genSpin,
-	"slowhb": genSlowHB,
-	"healthrace": genHealthRace,
+	"basic":           genBasic,
+	"stoppoints":      genStopPoints,
+	"conn":            genConn,
+	"faults":          genFaults,
+	"health":          genHealth,
+	"tamper":          genTamper,
+	"takeover":        genTakeover,
+	"vacancy":         genVacancy,
+	"roundend":        genRoundEnd,
+	"takeoverstop":    genTakeoverStop,
+	"stoptimeout":     genStopTimeout,
+	"spin":            genSpin,
+	"slowhb":          genSlowHB,
+	"healthrace":      genHealthRace,
 	"acklosttakeover": genAckLostTakeover,
-	"acklosthb": genAckLostHB,
-	"lease": genLease,
-	"restart": genRestart,
-	"mix": genMix,
+	"acklosthb":       genAckLostHB,
+	"lease":           genLease,
+	"restart":         genRestart,
+	"mix":             genMix,
 }
 
 type scenOut struct {
@@ -191,6 +193,12 @@ func runScenarioMode(t *testing.T, mode string, rep *Report, rng *rand.Rand, n i
 			seed := mix(rep.Seed, int64(k), 99)
 			sc := g(rand.New(rand.NewSource(seed)), seed)
 			sc.Name = fmt.Sprintf("%s#%d", sc.Name, k)
+			if mix(seed, 9931)%5 == 0 || strings.HasPrefix(sc.Name, "roundend#") {
+				sc.SlowLog = time.Duration(2+mix(seed, 9932)%20) * time.Millisecond // a fifth of the scenarios: warnings and errors take a few milliseconds to write
+				if strings.HasPrefix(sc.Name, "roundend#") {
+					sc.SlowLog = time.Duration(40+mix(seed, 9932)%80) * time.Millisecond // (a sink that stalls)
+				}
+			}
 			if y := mix(seed, 9917) % 6; y < 2 {
 				sc.YieldLog = 1 + int(y)*2 // a third of the scenarios: a Logger that yields on every (third) record
 			}
